@@ -217,7 +217,10 @@ class Contract(object):
             if isinstance(o, Obj):
                 cur = o.fields.get(field)
                 if T is not None:
-                    nv = make_value(it, T, '%s.%s' % (head, field))
+                    if callable(T) and getattr(T, 'wants_current', False):
+                        nv = T(it, '%s.%s' % (head, field), cur)
+                    else:
+                        nv = make_value(it, T, '%s.%s' % (head, field))
                 else:
                     nv = it.fresh_like(cur, '%s.%s' % (head, field))
                 if nv is None and cur is not None and T is None:
@@ -244,6 +247,7 @@ class Contract(object):
             env.vars['result'] = res
             for lab, c in self.ensures:
                 ctx.assume(it.spec_truth(c, env))
+            self._check_consistent(it)
             return res
         ename = outcomes[k]
         spec = self.raises[ename]
@@ -254,6 +258,18 @@ class Contract(object):
         for lab, c in spec['ensures']:
             ctx.assume(it.spec_truth(c, env))
         raise PyExc(exc, 'contract:%s' % self.qualname)
+
+    def _check_consistent(self, it):
+        """An assumed postcondition that contradicts the state would silently kill the path
+        (vacuous proofs below it): that is a checker error, never a pass."""
+        ctx = it.ctx
+        if ctx.replaying():
+            return
+        import z3 as _z3
+        r = ctx.solver.check()
+        if r == _z3.unsat:
+            raise EngineError('assumed contract of %s is inconsistent with the state at this call '
+                              '(postcondition unsatisfiable)' % self.qualname)
 
     def _default_exc(self, it, ename):
         cls = it.program.builtin_classes.get(ename)
